@@ -265,6 +265,8 @@ def check_dispatch(ctx: Check, tree: Tree) -> None:
 
 
 def check_same_decay(ctx: Check, tree: Tree) -> None:
+    from ..paths import PathWalker
+
     fn = tree.func(f"{HEL}::HelicityAmplitudeBuilder.__formulate_dynamics")
     inl = Inliner(fn.node)
     frd = RD(fn.node)
@@ -278,11 +280,53 @@ def check_same_decay(ctx: Check, tree: Tree) -> None:
     if len(calls) != 1:
         raise AnalysisError("__formulate_dynamics: expected one call of the builder looked up in self.dynamics[...]")
     c = calls[0]
-    a0 = unparse(inl.expr(c.args[0])).replace(" ", "")
-    a1 = unparse(inl.expr(c.args[1])).replace(" ", "")
+    # positional arguments, looking through a starred local tuple
+    pos = []
+    for a in c.args:
+        if isinstance(a, ast.Starred):
+            v = inl.expr(a.value)
+            if isinstance(v, ast.Tuple):
+                pos.extend(v.elts)
+            else:
+                raise AnalysisError(f"__formulate_dynamics: builder called with *{unparse(a.value)} which is not a local tuple")
+        else:
+            pos.append(inl.expr(a))
+    if len(pos) < 2:
+        raise AnalysisError("__formulate_dynamics: builder call has fewer than two positional arguments")
+    a0 = unparse(inl.expr(pos[0])).replace(" ", "")
+    a1 = unparse(inl.expr(pos[1])).replace(" ", "")
     decay = "TwoBodyDecay.from_transition(transition,node_id)"
     b = next(iter(frd.reaching(c.func)))
     lookup = unparse(inl.expr(b.value)).replace(" ", "")
+    # must-pass-through: every path that returns a lineshape executes the call of THIS node's builder,
+    # unless the value comes out of a memo whose key derives from the builder or the decay
+    walker = PathWalker(tree)
+    skipped = []
+    for path in walker.paths(fn):
+        if path.exit != "return" or path.exit_node is None or unparse(path.exit_node.value) == "sp.S.One":
+            continue
+        executed = any(ev[0] == "stmt" and any(n is c for n in ast.walk(ev[1])) for ev in path.events)
+        if executed:
+            continue
+        # memo lookups on this path
+        keyed_ok = False
+        ret_defs = {d.node for d in frd.closure(frd.uses(path.exit_node.value))}
+        for ev in path.events:
+            if ev[0] == "stmt" and isinstance(ev[1], ast.Assign) and isinstance(ev[1].value, ast.Subscript) and ev[1] in ret_defs and ev[1] is not b.node:
+                key_expr = inl.expr(ev[1].value.slice)
+                elements = key_expr.elts if isinstance(key_expr, ast.Tuple) else [key_expr]
+                lookup_key = unparse(inl.expr(b.value.slice)) if isinstance(b.value, ast.Subscript) else None
+                for el in elements:
+                    # the builder object itself, or the very decay the builder was looked up with
+                    if isinstance(el, ast.Name) and b in frd.reaching(ev[1].value.slice if isinstance(ev[1].value.slice, ast.Name) else el):
+                        keyed_ok = True
+                    if unparse(el) in {lookup_key, unparse(b.value)}:
+                        keyed_ok = True
+        if not keyed_ok:
+            skipped.append(path)
+    ctx.verdict(not skipped, "R-SAMEDECAY", f"{fn.qual}::builder-called-on-every-path", tree.loc(c),
+                "every path of __formulate_dynamics that returns a lineshape calls the builder assigned to THIS decay (or reads a memo keyed by that builder / decay)",
+                None if not skipped else f"{len(skipped)} path(s) return an expression without calling `{unparse(c.func)}`: a lineshape formulated for another decay / by another builder is reused")
     problems = []
     if a0 != f"{decay}.parent.particle":
         problems.append(f"resonance argument is {a0}")
